@@ -16,24 +16,35 @@ var verifKinds = []yaml.Kind{yaml.ScalarNode, yaml.MappingNode, yaml.SequenceNod
 var verifTags = []string{"", "!expr"}
 
 // verifTree builds an arbitrary yaml.v3 node tree satisfying yaml.v3's shape invariants: a mapping
-// has an even number of children, a scalar/alias has none.
-func verifTree(depth int) *yaml.Node {
+// has an even number of children, a scalar/alias has none, an alias points to an anchored node - which
+// yaml.v3 allows to be one of its own ancestors (it does not reject cyclic aliases when decoding into nodes).
+func verifTree(depth int, ancestors ...*yaml.Node) *yaml.Node {
 	n := &yaml.Node{Kind: verifKinds[verifrt.Choice("kind", len(verifKinds))], Tag: verifTags[verifrt.Choice("tag", len(verifTags))]}
+	ancestors = append(ancestors, n)
 	switch n.Kind {
+	case yaml.AliasNode:
+		// target: a scalar elsewhere in the document, or an ancestor (cyclic)
+		if k := verifrt.Choice("alias-target", len(ancestors)); k == 0 {
+			n.Alias = &yaml.Node{Kind: yaml.ScalarNode, Value: "a", Anchor: "x"}
+		} else {
+			n.Alias = ancestors[k-1]
+			n.Alias.Anchor = "x"
+		}
+		n.Value = "x"
 	case yaml.ScalarNode:
 		n.Value = []string{"", "a"}[verifrt.Choice("value", 2)]
 	case yaml.MappingNode:
 		if depth > 0 {
 			pairs := verifrt.Choice("pairs", verifrt.Param("fan", 2)+1)
 			for i := 0; i < pairs; i++ {
-				n.Content = append(n.Content, verifTree(depth-1), verifTree(depth-1))
+				n.Content = append(n.Content, verifTree(depth-1, ancestors...), verifTree(depth-1, ancestors...))
 			}
 		}
 	case yaml.SequenceNode:
 		if depth > 0 {
 			items := verifrt.Choice("items", verifrt.Param("fan", 2)+1)
 			for i := 0; i < items; i++ {
-				n.Content = append(n.Content, verifTree(depth-1))
+				n.Content = append(n.Content, verifTree(depth-1, ancestors...))
 			}
 		}
 	}
